@@ -404,7 +404,8 @@ class SEDCube(BaseCube):
         sed.nu = self.nu
         sed.apertures = self.apertures
         sed.flux = self.val[sed_index, :,:]
-        sed.error = self.unc[sed_index, :,:]
+        if self.unc is not None:
+            sed.error = self.unc[sed_index, :,:]
         return sed
 
 
